@@ -318,6 +318,34 @@ void HyperedgeRerouter::performRerouting(void)
 
         // Execute the MTST method to find good junction positions and an
         // initial path.  A hyperedge tree will be built for the new route.
+#ifdef ADAPTAGRAMS_VERIF
+        if (verif_hyper_log)
+        {
+            fprintf(verif_hyper_log, "H2 REROUTE-BEGIN %u %u\n", (unsigned) i,
+                    (unsigned) m_terminal_vertices_vector[i].size());
+            for (ConnRefList::iterator curr =
+                    m_deleted_connectors_vector[i].begin();
+                    curr != m_deleted_connectors_vector[i].end(); ++curr)
+            {
+                verifHyperConn(verif_hyper_log, "OLDC", *curr);
+            }
+            for (JunctionRefList::iterator curr =
+                    m_deleted_junctions_vector[i].begin();
+                    curr != m_deleted_junctions_vector[i].end(); ++curr)
+            {
+                fprintf(verif_hyper_log, "H2 OLDJ %u\n", (*curr)->id());
+            }
+            for (VertexSet::iterator curr =
+                    m_terminal_vertices_vector[i].begin();
+                    curr != m_terminal_vertices_vector[i].end(); ++curr)
+            {
+                fprintf(verif_hyper_log, "H2 T %p %u %u %.17g %.17g\n",
+                        (void *) *curr, (*curr)->id.objID,
+                        (unsigned) (*curr)->id.vn, (*curr)->point.x,
+                        (*curr)->point.y);
+            }
+        }
+#endif
         JunctionHyperedgeTreeNodeMap hyperedgeTreeJunctions;
         MinimumTerminalSpanningTree mtst(m_router, 
                 m_terminal_vertices_vector[i], &hyperedgeTreeJunctions);
@@ -331,6 +359,12 @@ void HyperedgeRerouter::performRerouting(void)
 
         HyperedgeTreeNode *treeRoot = mtst.rootJunction();
         COLA_ASSERT(treeRoot);
+#ifdef ADAPTAGRAMS_VERIF
+        if (verif_hyper_log)
+        {
+            verifHyperDumpTree(verif_hyper_log, "mtst", treeRoot);
+        }
+#endif
         
         // Fill in connector information and join them to junctions of endpoints
         // of original connectors.
@@ -340,6 +374,24 @@ void HyperedgeRerouter::performRerouting(void)
         // Output the list of new junctions and connectors from hyperedge tree.
         treeRoot->listJunctionsAndConnectors(nullptr, m_new_junctions_vector[i],
                 m_new_connectors_vector[i]);
+#ifdef ADAPTAGRAMS_VERIF
+        if (verif_hyper_log)
+        {
+            verifHyperDumpTree(verif_hyper_log, "conns", treeRoot);
+            for (ConnRefList::iterator curr =
+                    m_new_connectors_vector[i].begin();
+                    curr != m_new_connectors_vector[i].end(); ++curr)
+            {
+                verifHyperConn(verif_hyper_log, "C", *curr);
+            }
+            for (JunctionRefList::iterator curr =
+                    m_new_junctions_vector[i].begin();
+                    curr != m_new_junctions_vector[i].end(); ++curr)
+            {
+                fprintf(verif_hyper_log, "H2 NEWJ %u\n", (*curr)->id());
+            }
+        }
+#endif
 
         // Write paths from the hyperedge tree back into individual
         // connector routes.
@@ -357,14 +409,32 @@ void HyperedgeRerouter::performRerouting(void)
             // Clear visibility assigned for connection pins.
             (*curr)->assignConnectionPinVisibility(false);
 
+#ifdef ADAPTAGRAMS_VERIF
+            if (verif_hyper_log)
+            {
+                fprintf(verif_hyper_log, "H2 DELC %u\n", (*curr)->id());
+            }
+#endif
             m_router->deleteConnector(*curr);
         }
         for (JunctionRefList::iterator curr = 
                 m_deleted_junctions_vector[i].begin();
                 curr != m_deleted_junctions_vector[i].end(); ++curr)
         {
+#ifdef ADAPTAGRAMS_VERIF
+            if (verif_hyper_log)
+            {
+                fprintf(verif_hyper_log, "H2 DELJ %u\n", (*curr)->id());
+            }
+#endif
             m_router->deleteJunction(*curr);
         }
+#ifdef ADAPTAGRAMS_VERIF
+        if (verif_hyper_log)
+        {
+            fprintf(verif_hyper_log, "H2 REROUTE-END %u\n", (unsigned) i);
+        }
+#endif
     }
 
     // Clear the input to this class, so that new objects can be registered
